@@ -12,6 +12,7 @@ spec/Logging.tla, spec/LogRotation.tla.  Binding:
                  Trace_Logging / Trace_LogRotation (TLC).
 """
 import json
+import zlib
 import os
 import random
 import shutil
@@ -331,6 +332,15 @@ def _run_rotation(case):
         for pos in case['foreign']:
             with open(os.path.join(sub, foreign[pos]), 'w') as f:
                 f.write('x\n')
+        # "newest" means newest by the date in the NAME: the modification times of the files present tell nothing
+        # (files restored from a backup, an old file saved again ...): vary them against the name order
+        present = sorted(os.listdir(sub))
+        mode = zlib.crc32(json.dumps(case, sort_keys=True).encode()) % 3
+        if mode:
+            order = present if mode == 1 else present[::2] + present[1::2]
+            for k, nme in enumerate(order):      # mode 1: the older the name, the newer the time stamp
+                ts = 1.7e9 + (len(order) - k) * 86400.0
+                os.utime(os.path.join(sub, nme), (ts, ts))
         h = fl.LogfileHandler(d, root, max_days=case['n'])
         import logging
         rec = lambda: logging.LogRecord('node', 20, __file__, 1, 'line', (), None)
